@@ -100,7 +100,7 @@ CLAIMED = {
                 'poll counter, poll interval <= 1000 nodes, shouldStop compares elapsed time with the limit selected by searchNeedMoreTime. '
                 'Also: the limit shouldStop compares the elapsed time with is on every path bounded by the hard limit (hard, soft, or min(.., hard)). '
                 'Right level: the inequality chain is an arithmetic fact over a stated finite domain (exactly what interval analysis '
-                'decides); the latency clause is timing and is not claimed. Added clause (4): the option queue is drained before the go path reads option values. (5) the node accumulators the NPS throttle sleeps on are reset at every search start (shared with C14.2). (6) every position-decoding sweep of the on-demand tablebase generation gives up both for limit 0 (stop) and for a positive limit that has passed (ponderhit) - found and fixed defect D19. (7) the time origin of a search is the reception time of its go: unbroken chain clock reading -> SearchParams -> startThread -> Search::timeLimit -> tStart.',
+                'decides); the latency clause is timing and is not claimed. Added clause (4): the option queue is drained before the go path reads option values. (5) the node accumulators the NPS throttle sleeps on are reset at every search start (shared with C14.2). (6) every position-decoding sweep of the on-demand tablebase generation gives up both for limit 0 (stop) and for a positive limit that has passed (ponderhit) - found and fixed defect D19. (7) the time origin of a search is the reception time of its go: unbroken chain clock reading -> SearchParams -> startThread -> Search::timeLimit -> tStart. (8) = C14.5 the option values the limits are computed from are the ones set last.',
         'design_ref': 'DESIGN.md section 2, C06',
         'note': TB + ' Does not decide wall-clock latency ("within one polling interval").',
         'technique': 'custom static analysis: reaching-definition provenance, interval abstract interpretation with subdivision over the stated input domain, dominance-based ordering, poll-structure pairing',
@@ -189,7 +189,7 @@ CLAIMED = {
                 'nothing and after the whole-range draw sweep, and every time/stop test leads to return false; (3) exhaustive constant '
                 'evaluation over the 8-bit state domain shows the three answer predicates disjoint and false on every unfinished state, '
                 'and get(set(n)) == n; (4) region size/alignment/placement constants agree with the men guard. Right level: the abort '
-                'clause is a typestate property of one class, decidable for every abort point at once; distances themselves are value-level. Added clause (7): adjacent-duplicate filters of the generator and sortedness of the neighbour lists. (8) un-capture call order agrees with the special cases of TBIndex::setSquare. (7, extended) every neighbour-list loop of generate() skips adjacent duplicates, or the list is cut at std::unique where it is sorted. (9) TBPosition::setPosition succeeds only after a sweep over every piece type that fails on a man that found no slot.',
+                'clause is a typestate property of one class, decidable for every abort point at once; distances themselves are value-level. Added clause (7): adjacent-duplicate filters of the generator and sortedness of the neighbour lists. (8) un-capture call order agrees with the special cases of TBIndex::setSquare. (7, extended) every neighbour-list loop of generate() skips adjacent duplicates, or the list is cut at std::unique where it is sorted. (9) TBPosition::setPosition succeeds only after a sweep over every piece type that fails on a man that found no slot. (10) the first sweep of the generation stores a value for every index it visits (memory inside the hash table holds stale bytes).',
         'design_ref': 'DESIGN.md section 2, C12',
         'note': TB + ' Does not decide the exactness of distance-to-mate values.',
         'technique': 'custom static analysis: typestate dataflow with sibling-method summaries, must-pass-through on the CFG, exhaustive constant evaluation over an 8-bit domain, constant agreement',
@@ -214,7 +214,7 @@ CLAIMED = {
                 'TranspositionTable::clear, History::init and setClearHistory; History::init / KillerTable::clear cover every member of '
                 'every cell (loop bounds = array extents); iterativeDeepening clears killers before searching; helpers honour '
                 'clearHistory. Right level: "whatever preceded it" quantifies over histories, and a missing reset is visible in the '
-                'write sets for all histories at once (this rule found the generation-counter defect that needs 15+16k searches to show). Added clause (4): clear() tiles [0, tableSize) for every Hash size (finite evaluation of clear() itself). The History::init clause also requires the zeroing to be unconditional. (5) the queue of option changes waiting for an idle engine keeps the latest value per option (overwriting store of the value parameter under the name parameter; no emplace / insert on the queue).',
+                'write sets for all histories at once (this rule found the generation-counter defect that needs 15+16k searches to show). Added clause (4): clear() tiles [0, tableSize) for every Hash size (finite evaluation of clear() itself). The History::init clause also requires the zeroing to be unconditional. (5) the queue of option changes waiting for an idle engine keeps the latest value per option (overwriting store of the value parameter under the name parameter; no emplace / insert on the queue). (6) = C07.7 the material-class flags cached in the material hash are computed from the material alone.',
         'design_ref': 'DESIGN.md section 2, C14',
         'note': TB + ' Does not decide equality of node counts as such, nor state outside these classes (static-storage writers are listed for review).',
         'technique': 'custom static analysis: effect (write-set) analysis with must-write on all CFG paths, reset-value agreement, must-call chains',
@@ -228,7 +228,7 @@ CLAIMED = {
                 'ChessError-family exceptions and the UCI handler lets nothing escape; (5) pawn-direction square offsets are colour-decided '
                 '(6) PGN scanner look-ahead typestate: every character read is appended, matched as a delimiter, skipped as white space or handed back before the next read / the return. '
                 'and mirrored. Right level: "never a crash or memory error for arbitrary bytes" needs the bounds and exception obligations '
-                'for every input; agreement of tables is the structural core of every round trip. The UCI promotion-suffix clause now interprets both printers per promotion code. (8) the END token leaves every token-reading loop of the PGN parser. (9) the castling text of the short / long form is printed for exactly the king\'s two-square moves from home (all 64 x 64 x 12 from/to/piece). (10) readFEN bounds the men per side by 16, which the unchecked 256-entry MoveList relies on - found and fixed defect D18. (11) the disambiguation scan of moveToString visits every index of the legal-move list (sizes 0..8 evaluated).',
+                'for every input; agreement of tables is the structural core of every round trip. The UCI promotion-suffix clause now interprets both printers per promotion code. (8) the END token leaves every token-reading loop of the PGN parser. (9) the castling text of the short / long form is printed for exactly the king\'s two-square moves from home (all 64 x 64 x 12 from/to/piece). (10) readFEN bounds the men per side by 16, which the unchecked 256-entry MoveList relies on - found and fixed defect D18. (11) the disambiguation scan of moveToString visits every index of the legal-move list (sizes 0..8 evaluated). (3, extended) an external half-move clock is bounded above as well as below before it is stored - found and fixed defect D21.',
         'design_ref': 'DESIGN.md section 2, C17',
         'note': TB + ' Does not decide uniqueness of short forms, value-level round trips, or robustness of every byte string.',
         'technique': 'custom static analysis: constant evaluation of switch tables (inverse agreement), guard-derived length bounds, range provenance of external integers, exception-flow, colour-coherence of direction offsets',
@@ -277,6 +277,6 @@ for _p in ('C01', 'C02', 'C03', 'C04', 'C06', 'C07', 'C08', 'C09', 'C10', 'C11',
 NOTES = ('Technique family: static analysis only. Every verdict is computed from /repo\'s current source on every run (content-addressed '
          'fact cache under /verif/build/cache is keyed by the SHA-256 of every source/header/CMake file and of the extractor). Exit 0 = all '
          'obligations discharged; exit 1 = VIOLATION lines; exit 2 = analysis broken (anchor vanished, extractor failed, instance floor not met). '
-         'Twenty-one genuine defects found by the rules on the pinned tree were repaired with unguarded fix: commits in /repo and are listed as '
+         'Twenty-two genuine defects found by the rules on the pinned tree were repaired with unguarded fix: commits in /repo and are listed as '
          '"fixed:" in known_findings.json; three genuine violations of C02 that are not small-and-safe to repair are listed there as "known" '
          '(the C02 check prints a KNOWN-FINDING line for each and exits 0; any other violation of the same clauses is still reported). No hooks are needed (guard TEXEL_VERIF is unused).')
